@@ -30,7 +30,7 @@ META = {
         ' Also (D2): the JSON reference branch decides presence of the display string by `is not None` (the group can match the empty text); Ref.__init__ has_value table.'
         " Also (D6): ordered structures are not built by walking a set expression; dict comprehensions over items() accepted in the assembly script.  A `%` whose left operand carries a value's own text is a violation (data as format)."
         ' Also: a greedy first group of a decode regex cannot swallow the separator (x:type:data cut at the first colon); number texts are not trimmed in exponent form.'
-        ' Round 9: (D4) Version.nearest, which decides the Remove spelling and the 3.0 gates for every value, is a function of its argument (no class/module memo keyed by the numeric groups alone, no two-slot memo); (D7) no writer memo keyed by the value.'),
+        ' Round 9: (D4) Version.nearest, which decides the Remove spelling and the 3.0 gates for every value, is a function of its argument (no class/module memo keyed by the numeric groups alone, no two-slot memo); (D7) no writer memo keyed by the value; (D6) dump() traverses its argument once per path.'),
     'rule_text': 'obligations = ladder rows, kinds x (first-accepting entry, inclusion, capture markers) x 2 versions, '
                  'Remove rule, precision per kind, assembly facts',
     'trusted_base': ['re semantics of `.match`, `^`, `$`+MULTILINE, `.` without DOTALL; json.dumps/json.loads round-trip '
